@@ -187,6 +187,10 @@ def load_instrumented(modnames, extra_globals=None, re_shim=True, shadow=None):
             exec(code, mod.__dict__)
             if re_shim and isinstance(mod.__dict__.get("re"), types.ModuleType) and mod.__dict__["re"].__name__ == "re":
                 mod.__dict__["re"] = sre.SYMRE
+            # `from package import submodule` binds the package attribute (the real module): rebind to the copy
+            for gname, gval in list(mod.__dict__.items()):
+                if isinstance(gval, types.ModuleType) and gval.__name__ in out and gval is not out[gval.__name__]:
+                    mod.__dict__[gname] = out[gval.__name__]
             out[modname] = mod
     finally:
         for modname, real in saved.items():
